@@ -264,7 +264,57 @@ form, with `ω_k^(2^(k-1)) = -1` -/
 theorem rootsPacked_ok (n logsize : Nat) (m : Mzp) (h : new n logsize = some m) (hK : m.k ≤ 31) :
     ∃ rts, rootsPacked m = some rts ∧ RootsOk m rts (omk m) := by
   obtain ⟨big, eb, lb, hb⟩ := rootsBig_spec n logsize m h hK
-  refine ⟨(List.range (m.k + 1)).map (packLevel m.k big), by unfold rootsPacked; rw [eb]; rfl, ?_⟩
+  obtain ⟨ws, ew, hws, hom⟩ := omegas_spec n logsize m h hK
+  have ht := tabOk_of_new n logsize m h
+  -- the sanity check passes: ω^(2^logsize) = 1
+  have hp2 : 0 < 2 ^ m.k := Nat.pow_pos (by decide)
+  obtain ⟨chk, echk, _, _⟩ := mapM_range' (α := Unit) () (Q := fun _ _ => True)
+    (rootsCheck1 m (big.getD (2 ^ m.k - 1) []) ws) m.w (by
+      intro j hj
+      have hpo := ht j hj
+      obtain ⟨hl, hlv⟩ := hb (2 ^ m.k - 1) (by omega)
+      obtain ⟨z, e1, zlt, zmf⟩ := mgMul64_mf hpo _ (ws.getD j 0) (hl.2 j hj) (lt_trans (hws.2 j hj) hpo.ltW)
+      obtain ⟨v, e2, vlt, vmod⟩ := Ymq.C07.mgRedc_spec (P m j) (P m j - 2) z (by have := hpo.pos; omega) hpo.ltW
+        hpo.inv (lt_of_lt_of_le zlt (Nat.le_mul_of_pos_right _ (by decide)))
+      have hz1 : mf (P m j) z = 1 := by
+        have h1 : mfe m (big.getD (2 ^ m.k - 1) []) j = Om m j ^ (2 ^ m.k - 1) := hlv j hj
+        have h2 : mfe m ws j = Om m j := hom j hj
+        unfold mfe at h1 h2
+        rw [zmf, h1, h2, ← pow_succ, Nat.sub_add_cancel hp2]
+        obtain ⟨g, ri, hrow, hok, _⟩ := new_ctx n logsize m h j hj
+        unfold Om
+        have hg : (Ymq.Gen.Params.NTT_PRIMES.getD j (0, 0)).2 = g := by
+          rw [List.getD_eq_getElem?_getD, hrow]; rfl
+        rw [hg, ← pow_mul, ← pow_add, show 32 - m.k + m.k = 31 + 1 by omega, pow_succ 2 31, pow_mul]
+        have h5 := hok.2.2.2.2
+        simp only at h5
+        rw [sqIter_eq] at h5
+        have hc : (((g ^ 2 ^ 31 % P m j : Nat)) : ZMod (P m j)) = ((P m j - 1 : Nat) : ZMod (P m j)) := by rw [h5]
+        rw [ZMod.natCast_mod, Nat.cast_sub (by have := hpo.pos; omega), Nat.cast_pow, ZMod.natCast_self] at hc
+        rw [hc]; simp
+      have hv1 : v = 1 := by
+        have hc : ((v * W : Nat) : ZMod (P m j)) = ((z : Nat) : ZMod (P m j)) :=
+          (ZMod.natCast_eq_natCast_iff' _ _ _).2 vmod
+        push_cast at hc
+        have hmfv : mf (P m j) z = ((v : Nat) : ZMod (P m j)) := by
+          unfold mf
+          rw [← hc, mul_assoc, W_uinv hpo, mul_one]
+        rw [hz1] at hmfv
+        have : ((v : Nat) : ZMod (P m j)) = ((1 : Nat) : ZMod (P m j)) := by rw [← hmfv]; simp
+        have hmod := (ZMod.natCast_eq_natCast_iff' _ _ _).1 this
+        rw [Nat.mod_eq_of_lt vlt, Nat.mod_eq_of_lt hpo.pos] at hmod
+        exact hmod
+      refine ⟨(), ?_, trivial⟩
+      unfold rootsCheck1
+      show (match mgMul64 (P m j) _ _ with | none => none | some x => _) = _
+      rw [e1]
+      simp only
+      show (match Ymq.Mg64.mgRedc (P m j) (P m j - 2) z with | none => none | some v => _) = _
+      rw [e2]
+      simp only
+      rw [if_pos hv1])
+  refine ⟨(List.range (m.k + 1)).map (packLevel m.k big), by
+    unfold rootsPacked; rw [ew, eb]; simp only; rw [echk], ?_⟩
   have hone : ∀ j, j < m.w → ∀ k, 1 ≤ k → k ≤ m.k → omk m j k true ^ 2 ^ k = 1 :=
     fun j hj k h1 hk => omk_pow_one n logsize m h hK j hj k h1 hk
   have hpk : ∀ k, 1 ≤ k → 2 ^ k / 2 = 2 ^ (k - 1) := by
